@@ -99,7 +99,10 @@ package replicaset
   props C20
   theory replicasettyped
   requires (and (not (= {c} vnil)) (not (= {c.parent} vnil)))
+  ghost perr : V := vnil
   at call(List) assert [lists-the-untyped-cache] (= $recv {c.parent})
+  at call(List).after set perr := $result1
+  exit [an-error-of-the-untyped-cache-is-returned-unchanged-with-no-objects] (=> (not (= perr vnil)) (and (= result1 perr) (= (slen result0) 0)))
 @*/
 
 /*@ func types/replicaset.newCache
@@ -327,23 +330,38 @@ package replicaset
 
 /*@ func (types/replicaset.handler).OnInitialize
   props C20 C16
-  at call(dyncall) assert [calls-the-registered-initialize-callback-with-the-same-objects] (and (= $fn {h.onInitialize}) (= $0 {objs}))
+  ghost called : Bool := false
+  at call(dyncall) assert [calls-the-registered-initialize-callback-with-the-same-objects] (and (= $fn {h.onInitialize}) (= $0 {objs}) (not called))
+  at call(dyncall) set called := true
+  exit [the-callback-is-called-exactly-when-one-is-registered] (= called (not (= {h.onInitialize} vnil)))
 @*/
 /*@ func (types/replicaset.baseHandler).OnCreate
   props C20 C16
-  at call(dyncall) assert [calls-the-registered-create-callback-with-the-same-object] (and (= $fn {h.onCreate}) (= $0 {obj}))
+  ghost called : Bool := false
+  at call(dyncall) assert [calls-the-registered-create-callback-with-the-same-object] (and (= $fn {h.onCreate}) (= $0 {obj}) (not called))
+  at call(dyncall) set called := true
+  exit [the-callback-is-called-exactly-when-one-is-registered] (= called (not (= {h.onCreate} vnil)))
 @*/
 /*@ func (types/replicaset.baseHandler).OnUpdate
   props C20 C16
-  at call(dyncall) assert [calls-the-registered-update-callback-with-the-same-object] (and (= $fn {h.onUpdate}) (= $0 {obj}))
+  ghost called : Bool := false
+  at call(dyncall) assert [calls-the-registered-update-callback-with-the-same-object] (and (= $fn {h.onUpdate}) (= $0 {obj}) (not called))
+  at call(dyncall) set called := true
+  exit [the-callback-is-called-exactly-when-one-is-registered] (= called (not (= {h.onUpdate} vnil)))
 @*/
 /*@ func (types/replicaset.baseHandler).OnDelete
   props C20 C16
-  at call(dyncall) assert [calls-the-registered-delete-callback-with-the-same-object] (and (= $fn {h.onDelete}) (= $0 {obj}))
+  ghost called : Bool := false
+  at call(dyncall) assert [calls-the-registered-delete-callback-with-the-same-object] (and (= $fn {h.onDelete}) (= $0 {obj}) (not called))
+  at call(dyncall) set called := true
+  exit [the-callback-is-called-exactly-when-one-is-registered] (= called (not (= {h.onDelete} vnil)))
 @*/
 /*@ func (types/replicaset.unitaryHandler).OnInitialize
   props C20
-  at call(dyncall) assert [calls-the-registered-initialize-callback-with-the-same-object] (and (= $fn {h.onInitialize}) (= $0 {obj}))
+  ghost called : Bool := false
+  at call(dyncall) assert [calls-the-registered-initialize-callback-with-the-same-object] (and (= $fn {h.onInitialize}) (= $0 {obj}) (not called))
+  at call(dyncall) set called := true
+  exit [the-callback-is-called-exactly-when-one-is-registered] (= called (not (= {h.onInitialize} vnil)))
 @*/
 /*@ func (*types/replicaset.handlerBuilder).OnInitialize
   props C20 C16
@@ -376,25 +394,68 @@ package replicaset
                (= (|types/replicaset.baseHandler.onUpdate| {hb.baseHandler}) (|types/replicaset.baseHandler.onUpdate| (old {hb.baseHandler}))))
 @*/
 
+/*@ func (*types/replicaset.unitaryHandlerBuilder).OnInitialize
+  props C20 C16
+  requires (not (= {hb} vnil))
+  modifies hb.onInitialize
+  ensures (and (= result {hb}) (= {hb.onInitialize} {fn}))
+@*/
+/*@ func (*types/replicaset.unitaryHandlerBuilder).OnCreate
+  props C20 C16
+  requires (not (= {hb} vnil))
+  modifies hb.baseHandler
+  ensures (and (= result {hb}) (= (|types/replicaset.baseHandler.onCreate| {hb.baseHandler}) {fn})
+               (= (|types/replicaset.baseHandler.onUpdate| {hb.baseHandler}) (|types/replicaset.baseHandler.onUpdate| (old {hb.baseHandler})))
+               (= (|types/replicaset.baseHandler.onDelete| {hb.baseHandler}) (|types/replicaset.baseHandler.onDelete| (old {hb.baseHandler}))))
+@*/
+/*@ func (*types/replicaset.unitaryHandlerBuilder).OnUpdate
+  props C20 C16
+  requires (not (= {hb} vnil))
+  modifies hb.baseHandler
+  ensures (and (= result {hb}) (= (|types/replicaset.baseHandler.onUpdate| {hb.baseHandler}) {fn})
+               (= (|types/replicaset.baseHandler.onCreate| {hb.baseHandler}) (|types/replicaset.baseHandler.onCreate| (old {hb.baseHandler})))
+               (= (|types/replicaset.baseHandler.onDelete| {hb.baseHandler}) (|types/replicaset.baseHandler.onDelete| (old {hb.baseHandler}))))
+@*/
+/*@ func (*types/replicaset.unitaryHandlerBuilder).OnDelete
+  props C20 C16
+  requires (not (= {hb} vnil))
+  modifies hb.baseHandler
+  ensures (and (= result {hb}) (= (|types/replicaset.baseHandler.onDelete| {hb.baseHandler}) {fn})
+               (= (|types/replicaset.baseHandler.onCreate| {hb.baseHandler}) (|types/replicaset.baseHandler.onCreate| (old {hb.baseHandler})))
+               (= (|types/replicaset.baseHandler.onUpdate| {hb.baseHandler}) (|types/replicaset.baseHandler.onUpdate| (old {hb.baseHandler}))))
+@*/
+
 /*@ func types/replicaset.ToUnitary$1
   props C20
   requires (and (not (= {delegate} vnil)) (not (= {log} vnil)))
-  at call(OnInitialize) assert [only-for-exactly-one-object-and-with-that-object] (and (= (slen {objs}) 1) (= $0 (select (sarr {objs}) 0)))
+  ghost called : Bool := false
+  at call(OnInitialize) assert [only-for-exactly-one-object-and-with-that-object] (and (= (slen {objs}) 1) (= $0 (select (sarr {objs}) 0)) (not called))
+  at call(OnInitialize) set called := true
+  exit [delegates-exactly-when-there-is-exactly-one-object] (= called (= (slen {objs}) 1))
 @*/
 /*@ func types/replicaset.ToUnitary$2
   props C20
   requires (not (= {delegate} vnil))
-  at call(OnCreate) assert [delegates-create-with-the-same-object] (= $0 {obj})
+  ghost called : Bool := false
+  at call(OnCreate) assert [delegates-create-with-the-same-object] (and (= $0 {obj}) (not called))
+  at call(OnCreate) set called := true
+  exit [always-delegates-once] called
 @*/
 /*@ func types/replicaset.ToUnitary$3
   props C20
   requires (not (= {delegate} vnil))
-  at call(OnUpdate) assert [delegates-update-with-the-same-object] (= $0 {obj})
+  ghost called : Bool := false
+  at call(OnUpdate) assert [delegates-update-with-the-same-object] (and (= $0 {obj}) (not called))
+  at call(OnUpdate) set called := true
+  exit [always-delegates-once] called
 @*/
 /*@ func types/replicaset.ToUnitary$4
   props C20
   requires (not (= {delegate} vnil))
-  at call(OnDelete) assert [delegates-delete-with-the-same-object] (= $0 {obj})
+  ghost called : Bool := false
+  at call(OnDelete) assert [delegates-delete-with-the-same-object] (and (= $0 {obj}) (not called))
+  at call(OnDelete) set called := true
+  exit [always-delegates-once] called
 @*/
 
 /*@ func types/replicaset.NewMonitor
